@@ -124,6 +124,7 @@ type entry struct {
 	doc       *sbom.Document   // certain content (nil: absent)
 	maybe     []*sbom.Document // after a failed store: old or new are both acceptable
 	uncertain bool
+	isdir     bool     // a directory was put where the entry was
 	damaged   string   // at-rest damage applied and not yet overwritten
 	files     []string // paths the last successful store touched
 	mode000   bool     // entry file was made mode 000 and not yet replaced
